@@ -113,8 +113,11 @@ struct Ctx
     void state(uint64_t h) { states.insert(h); }
     void begin(int step, const std::string &op, const std::string &tags); // BEGIN marker (crash attribution)
     void tags(const std::string &tags); // refine the tags of the current step (re-sends the marker)
-    // Record a violation.  Ends the run (the process exits after flushing) when stopOnViolation.
-    void violate(const std::string &property, const std::string &cls, const std::string &tags, const std::string &detail);
+    // Record a violation.  Ends the run (the process exits after flushing), except when the signature is a
+    // listed known finding and the caller says the run can safely continue past it: then a known-finding
+    // hit is recorded and the call returns.
+    void violate(const std::string &property, const std::string &cls, const std::string &tags, const std::string &detail, bool continuable = false);
+    const std::set<std::string> *knownSigs = nullptr;
     void finish(); // write the final record
     void send(const std::string &line);
 };
